@@ -131,6 +131,9 @@ def run(seed_id, tier, pids):
                 print(out[-1500:])
     finally:
         sh("git -C %s reset -q --hard HEAD && git -C %s clean -fdq -- internal pkg" % (REPO, REPO))
+    # remember the latest verdict per (tier, property) next to the seed
+    meta.setdefault("checked", {}).setdefault(tier, {}).update({p: r["rc"] for p, r in results.items()})
+    json.dump(meta, open(os.path.join(d, "meta.json"), "w"), indent=1)
     return results
 
 
@@ -155,12 +158,40 @@ def sweep(tier, only=None):
             r = res.get(pid, {"rc": "n/a", "wall": 0})
             verdict = {1: "DETECTED", 0: "missed", 2: "machinery"}.get(r["rc"], "patch does not apply")
             lines.append("| %s | %s | %s %s | %s | %ss |" % (sid, (meta.get("summary") or "")[:110].replace("|", "/"), pid, tier, verdict, r["wall"]))
-        meta.setdefault("checked", {})[tier] = {p: res.get(p, {}).get("rc") for p in pids}
-        json.dump(meta, open(os.path.join(d, "meta.json"), "w"), indent=1)
     open(os.path.join(VERIF, "seeded", "RESULTS-%s.md" % tier), "w").write("\n".join(lines) + "\n")
 
 
+def matrix():
+    """Markdown table for DESIGN.md from the verdicts recorded in seeded/*/meta.json."""
+    rows = ["| seed | change (one line) | needs | quick tier verdicts (property: detected / missed) |", "|---|---|---|---|"]
+    n = det = 0
+    for sid in sorted(os.listdir(os.path.join(VERIF, "seeded"))):
+        mp = os.path.join(VERIF, "seeded", sid, "meta.json")
+        if not os.path.exists(mp):
+            continue
+        m = json.load(open(mp))
+        ck = m.get("checked", {}).get("quick", {})
+        own = m["property"]
+        verdict = ", ".join("%s: %s" % (p, {1: "**detected**", 0: "missed", 2: "machinery", None: "n/a"}.get(rc, str(rc)))
+                            for p, rc in sorted(ck.items(), key=lambda kv: (kv[0] != own, kv[0])))
+        if m.get("checked", {}).get("thorough"):
+            verdict += "; thorough: " + ", ".join("%s: %s" % (p, {1: "detected", 0: "missed"}.get(rc, str(rc)))
+                                                  for p, rc in sorted(m["checked"]["thorough"].items()))
+        if m.get("note"):
+            verdict += " — see note"
+        n += 1
+        det += 1 if ck.get(own) == 1 else 0
+        rows.append("| %s | %s | %s | %s |" % (sid, (m.get("summary") or "")[:150].replace("|", "/").replace("\n", " "),
+                                              (m.get("needs_to_manifest") or "")[:110].replace("|", "/").replace("\n", " "), verdict))
+    rows.append("")
+    rows.append("%d seeded changes; %d detected by their own property's quick check." % (n, det))
+    return "\n".join(rows)
+
+
 if __name__ == "__main__":
+    if sys.argv[1] == "matrix":
+        print(matrix())
+        sys.exit(0)
     if sys.argv[1] == "sweep":
         sweep(sys.argv[2] if len(sys.argv) > 2 else "quick", sys.argv[3:] or None)
     elif sys.argv[1] == "ingest":
